@@ -86,6 +86,7 @@ def single_field_deviations(d):
     yield "future_annotations", not d.future_annotations
     yield "_nested", not d._nested
     yield "_additional_line", (AdditionalLine(7) if d._additional_line is None else None)
+    yield "_additional_line", AdditionalLine(8, (1, 2))
     yield "_additional_args", d._additional_args + (Name("zz_extra"),)
     if d.blocks and d.blocks[0]:
         i0 = d.blocks[0][0]
@@ -366,7 +367,11 @@ class C08(Monitor):
                     # one-field deviations: a value differing in exactly one field is a
                     # different value (it encodes to a different code object)
                     for fname, nv in single_field_deviations(d1):
-                        row.append(("deviate:" + fname, dataclasses.replace(d1, **{fname: nv})))
+                        dv = dataclasses.replace(d1, **{fname: nv})
+                        row.append(("deviate:" + fname, dv))
+                        if fname.startswith("_"):
+                            # and what a JSON cycle makes of it (must be the same value)
+                            row.append(("deviate-json:" + fname, CodeData.from_json_data(json_cycle(dv.to_json_data()))))
                 except Exception as e:
                     pass  # other properties' business; compare what exists
                 V.append([(r, v, skey(v, True)) for r, v in row])
